@@ -26,3 +26,30 @@ fn c17_waveforms_stay_in_range_and_hit_their_breakpoints() {
 	kani::cover!(sel == 1 && p > 0.25 && p < 0.75, "w:triangle-falling");
 	kani::cover!(sel == 3 && p >= width, "w:pulse-low");
 }
+
+// @h prop=C07,C17 tier=quick kind=main timeout=900
+// @bounds real Lfo with its command channel: set_waveform and/or set_phase written (symbolic which, phases 0, pi/2, pi, 2 pi) before a callback; on_start_processing twice
+// @funcs Lfo::{new,on_start_processing}, CommandReader::read
+// @catches an LFO command lost or re-applied on every callback (the phase would be reset each callback)
+#[kani::proof]
+#[kani::unwind(3)]
+fn c07_lfo_commands_applied_exactly_once() {
+	let (mut w, r) = command_writers_and_readers();
+	let mut lfo = Lfo::new(&LfoBuilder::new(), r, Arc::new(LfoShared::new()));
+	let (sw, sp): (bool, bool) = (kani::any(), kani::any());
+	let k: u8 = kani::any();
+	kani::assume(k < 4);
+	let phase_arg = match k { 0 => 0.0, 1 => TAU / 4.0, 2 => TAU / 2.0, _ => TAU };
+	if sw { w.set_waveform.write(Waveform::Saw); }
+	if sp { w.set_phase.write(phase_arg); }
+	lfo.phase = 0.125;
+	lfo.on_start_processing();
+	assert!(lfo.waveform == if sw { Waveform::Saw } else { Waveform::Sine });
+	if sp { assert!(lfo.phase == phase_arg / TAU, "the phase is given in radians: phase/2pi of a cycle"); } else { assert!(lfo.phase == 0.125); }
+	lfo.phase = 0.375;
+	lfo.waveform = Waveform::Triangle;
+	lfo.on_start_processing();
+	assert!(lfo.phase == 0.375 && lfo.waveform == Waveform::Triangle, "a second drain re-applies nothing");
+	kani::cover!(sw && sp, "w:two-kinds-together");
+	std::mem::forget(lfo); std::mem::forget(w);
+}
